@@ -1,6 +1,7 @@
 import Sourmash.Lemmas.DownsampleCmp
 import Sourmash.Lemmas.DownsampleClosed
 import Sourmash.Lemmas.DownsampleHybrid
+import Sourmash.Lemmas.DownsamplePour
 /-! Property C04 — downsampling commutes with sketching and with every comparison.
 
 Property theorems only (helper lemmas: `Lemmas/Downsample*.lean`, `Lemmas/SetOps*.lean`), about the
@@ -399,5 +400,68 @@ theorem gather_ds_scaled_closed (k : Kind) (oq rq m : Sk) (ms : Nat) (hm : m.Sca
     (Sourmash.C14.roundtrip rq.scaled (by omega) h31)
 example : exS.Scaled ∧ exS.scaled ≠ 0 ∧ exS.scaled < (belowSk (maxHashForScaled 2000) exS).scaled ∧
     (belowSk (maxHashForScaled 2000) exS).scaled ≤ 2 ^ 31 := ⟨exS_scaled, by decide, by decide, by decide⟩
+
+/-! ### downsampling by pouring
+
+"Create the sketch at the new scaled value and pour the old one in" (`KmerMinHash::new(s', ..)` +
+`add_from`; the Python layer's `MinHash.downsample()` does it through `kmerminhash_new` +
+`kmerminhash_add_from`).  `add_from` checks nothing, so the receiver's own ceiling is the only filter:
+`pourScaled` is that sequence of calls. -/
+
+/-- **T-pour_exact**: pouring a sketch without a `num` bound into an empty sketch made at `s'` leaves
+exactly the hashes `≤ max_hash_for_scaled s'` under the new ceiling, each counted once — whatever the
+relation between the two scaled values (coarser, equal, finer). -/
+theorem pour_exact (k : Kind) (x : Sk) (s' : Nat) (hw : SInc x.mins) (hn : x.num = 0)
+    (hM : maxHashForScaled s' ≠ 0) :
+    pourScaled k x s' =
+      { x with maxHash := maxHashForScaled s', mins := below (maxHashForScaled s') x.mins,
+               abunds := x.abunds.map (fun _ => (below (maxHashForScaled s') x.mins).map (fun _ => 1)) } :=
+  pour_exact' k hw hn hM
+example : SInc exS.mins ∧ exS.num = 0 ∧ maxHashForScaled 2000 ≠ 0 := ⟨exS_scaled.1.1, rfl, by decide⟩
+/-- … on the example: the hash above the ceiling of 2000 does not get in. -/
+example : (pourScaled .vec exS 2000).mins = [5, 9223372036854776] ∧ (pourScaled .vec exS 2000).abunds = some [1, 1] := by
+  rw [pour_exact .vec exS 2000 exS_scaled.1.1 rfl (by decide)]; decide
+
+/-- **T-pour_ds**: pouring into a coarser sketch IS downsampling: `downsample_scaled(s')` succeeds and
+the poured sketch has its ceiling and its hashes; it is the same sketch when no abundances are tracked
+(`add_from` counts every hash once, `downsample_scaled` carries the abundances over). -/
+theorem pour_ds (k : Kind) (x : Sk) (s' : Nat) (hx : x.Scaled) (h0 : x.scaled ≠ 0)
+    (hlt : x.scaled < s') (hM : maxHashForScaled s' ≠ 0) :
+    ∃ r, downsampleScaled k x s' = .ok r ∧ (pourScaled k x s').mins = r.mins ∧
+      (pourScaled k x s').maxHash = r.maxHash ∧ (x.abunds = none → pourScaled k x s' = r) := by
+  refine ⟨_, downsample_exact k hx h0 hlt hM, ?_, ?_, ?_⟩
+  · rw [pour_exact' k hx.1.1 hx.2.1 hM]; rfl
+  · rw [pour_exact' k hx.1.1 hx.2.1 hM]; rfl
+  · intro hab
+    rw [pour_exact' k hx.1.1 hx.2.1 hM]
+    simp [belowSk, hab]
+example : exS.Scaled ∧ exS.scaled ≠ 0 ∧ exS.scaled < 2000 ∧ maxHashForScaled 2000 ≠ 0 :=
+  ⟨exS_scaled, by decide, by decide, by decide⟩
+
+/-- **T-pour_keeps**: a receiver whose ceiling is above everything the source holds (equal or finer
+scaled) takes every hash. -/
+theorem pour_keeps (k : Kind) (x : Sk) (s' : Nat) (hw : SInc x.mins) (hn : x.num = 0)
+    (hM : maxHashForScaled s' ≠ 0) (hall : ∀ h ∈ x.mins, h ≤ maxHashForScaled s') :
+    (pourScaled k x s').mins = x.mins := by
+  rw [pour_exact' k hw hn hM]
+  show below _ x.mins = x.mins
+  exact List.filter_eq_self.mpr (fun h hh => by simpa using hall h hh)
+example : SInc exS.mins ∧ exS.num = 0 ∧ maxHashForScaled 1000 ≠ 0 ∧ ∀ h ∈ exS.mins, h ≤ maxHashForScaled 1000 :=
+  ⟨exS_scaled.1.1, rfl, by decide, by decide⟩
+
+/-- **T-pour_exact / T-pour_ds**, closed: any `u64` target `s' ≥ 1` (`Scaled.maxHash_ne_zero`). -/
+theorem pour_exact_closed (k : Kind) (x : Sk) (s' : Nat) (hw : SInc x.mins) (hn : x.num = 0)
+    (h1 : 1 ≤ s') (h64 : s' < 2 ^ 64) :
+    pourScaled k x s' =
+      { x with maxHash := maxHashForScaled s', mins := below (maxHashForScaled s') x.mins,
+               abunds := x.abunds.map (fun _ => (below (maxHashForScaled s') x.mins).map (fun _ => 1)) } :=
+  pour_exact k x s' hw hn (maxHash_ne_zero s' h1 h64)
+theorem pour_ds_closed (k : Kind) (x : Sk) (s' : Nat) (hx : x.Scaled) (h0 : x.scaled ≠ 0)
+    (hlt : x.scaled < s') (h64 : s' < 2 ^ 64) :
+    ∃ r, downsampleScaled k x s' = .ok r ∧ (pourScaled k x s').mins = r.mins ∧
+      (pourScaled k x s').maxHash = r.maxHash ∧ (x.abunds = none → pourScaled k x s' = r) :=
+  pour_ds k x s' hx h0 hlt (maxHash_ne_zero s' (by omega) h64)
+example : exS.Scaled ∧ exS.scaled ≠ 0 ∧ exS.scaled < 2000 ∧ (2000 : Nat) < 2 ^ 64 :=
+  ⟨exS_scaled, by decide, by decide, by decide⟩
 
 end Sourmash.C04
